@@ -93,6 +93,7 @@ class SeqTheory:
 class Theory:
     def __init__(self):
         self.axioms = []       # (name, formula)
+        self.defs = {}
         self.seqs = {}
         self.funcs = {}        # spec function name -> (callable building a term, arg kinds, result kind)
         self._build()
@@ -102,6 +103,26 @@ class Theory:
         pats = [p if isinstance(p, (list, tuple)) else [p] for p in pats]
         zp = [z3.MultiPattern(*p) if len(p) > 1 else p[0] for p in pats]
         self.axioms.append((name, z3.ForAll(vars_, body, patterns=zp)))
+        # definitional shape  f(v1..vn) == rhs  over exactly the quantified variables: remember it
+        if z3.is_eq(body) and name.endswith('_def'):
+            lhs, rhs = body.children()
+            if z3.is_app(lhs) and lhs.decl().kind() == z3.Z3_OP_UNINTERPRETED and lhs.num_args() == len(vars_) \
+                    and all(any(c.eq(v) for v in vars_) for c in lhs.children()) and lhs.sort() == z3.BoolSort():
+                self.defs[lhs.decl().name()] = (list(lhs.children()), rhs)
+
+    def define(self, fn, vars_, body, name=None):
+        """Definitional axiom  forall vars. fn(vars) == body  (trigger fn(vars)); also recorded so that
+        goals which are applications of fn can be unfolded before conjunct splitting."""
+        app = fn(*vars_)
+        self.axiom(name or (fn.name() + '_def'), vars_, app == body, [app])
+        self.defs[fn.name()] = (list(vars_), body)
+
+    def unfold(self, term):
+        "definition body for a goal that is an application of a defined predicate, else None"
+        if z3.is_app(term) and term.decl().name() in self.defs and term.num_args() > 0:
+            vars_, body = self.defs[term.decl().name()]
+            return z3.substitute(body, list(zip(vars_, term.children())))
+        return None
 
     def ground(self, name, body):
         self.axioms.append((name, body))
